@@ -21,6 +21,11 @@ import (
 
 func TestMain(m *testing.M) { hx.Main(m) }
 
+// All time arithmetic of the oracle uses the monotonic clock (durations since base), as the
+// code under test does when it compares time.Time values that carry monotonic readings;
+// wall-clock readings may be stepped or slewed underneath a running process.
+var base = time.Now()
+
 // K is a key whose hash is chosen by the generator (shard collisions / spreads).
 type K struct {
 	ID int
@@ -33,7 +38,7 @@ func (k K) Sum() uint64 { return k.H }
 type V struct {
 	Key    int
 	Serial int64
-	Exp    int64 // unix nanos
+	Exp    int64 // nanoseconds since `base` on the monotonic clock
 }
 
 type Op struct {
@@ -132,7 +137,7 @@ func runCase(c Case, ctx *hx.Ctx) *hx.Failure {
 				k := K{ID: op.Key, H: c.Hashes[op.Key]}
 				switch op.Kind {
 				case "get":
-					e.wallInv = time.Now().UnixNano()
+					e.wallInv = int64(time.Since(base))
 					e.inv = clock.Add(1)
 					v, exp, ok := ca.Get(k)
 					e.ret = clock.Add(1)
@@ -141,14 +146,14 @@ func runCase(c Case, ctx *hx.Ctx) *hx.Failure {
 							e.foreign = "ok=true with nil value"
 						} else {
 							e.got = v
-							if exp.UnixNano() != v.Exp {
-								e.foreign = fmt.Sprintf("expiry returned %d differs from the stored one %d", exp.UnixNano(), v.Exp)
+							if int64(exp.Sub(base)) != v.Exp {
+								e.foreign = fmt.Sprintf("expiry returned %d differs from the stored one %d", int64(exp.Sub(base)), v.Exp)
 							}
 						}
 					}
 				case "store":
 					exp := time.Now().Add(time.Duration(op.ExpMs) * time.Millisecond)
-					v := &V{Key: op.Key, Serial: serial.Add(1), Exp: exp.UnixNano()}
+					v := &V{Key: op.Key, Serial: serial.Add(1), Exp: int64(exp.Sub(base))}
 					e.storedSer = v.Serial
 					e.inv = clock.Add(1)
 					ca.Store(k, v, exp)
@@ -178,7 +183,7 @@ func runCase(c Case, ctx *hx.Ctx) *hx.Failure {
 					exp := time.Now().Add(time.Hour)
 					for i := 0; i < op.N; i++ {
 						id := int(bulkID.Add(1))
-						ca.Store(K{ID: id, H: uint64(id) * 0x9e3779b97f4a7c15}, &V{Key: id, Serial: serial.Add(1), Exp: exp.UnixNano()}, exp)
+						ca.Store(K{ID: id, H: uint64(id) * 0x9e3779b97f4a7c15}, &V{Key: id, Serial: serial.Add(1), Exp: int64(exp.Sub(base))}, exp)
 					}
 					e.n = ca.Len()
 					e.ret = clock.Add(1)
@@ -245,7 +250,7 @@ func runCase(c Case, ctx *hx.Ctx) *hx.Failure {
 				if sr.inv > e.ret {
 					return hx.Failf("C11/value-from-the-future", "Get returned a value whose Store began after the Get returned")
 				}
-				if v.Exp+int64(time.Millisecond) < e.wallInv {
+				if v.Exp < e.wallInv {
 					return hx.Failf("C11/expired-value", "Get(key %d) returned a value that expired %v before the Get was invoked", e.op.Key, time.Duration(e.wallInv-v.Exp))
 				}
 				for _, w := range writes {
